@@ -2,8 +2,6 @@
 package mon
 
 import (
-	"sync/atomic"
-	"unsafe"
 	"bytes"
 	"errors"
 	"io"
@@ -11,7 +9,9 @@ import (
 	"net/netip"
 	"os"
 	"sync"
+	"sync/atomic"
 	"time"
+	"unsafe"
 
 	"github.com/irai/packet"
 	"github.com/irai/packet/fastlog"
@@ -19,27 +19,28 @@ import (
 
 // TxFrame is one frame passed to Conn.WriteTo.
 type TxFrame struct {
-	Seq  int
-	T    time.Time
-	Data []byte
-	Dst  packet.Addr
+	Seq    int
+	T      time.Time
+	Data   []byte
+	Dst    packet.Addr
 	HasDst bool
 }
 
 // Recorder is a net.PacketConn injected through Config.Conn: it records every written frame and
 // feeds ReadFrom from a queue. Unlike the repo's bufferedPacketConn it never panics after Close.
 type Recorder struct {
-	mu      sync.Mutex
-	frames  []TxFrame
-	seq     int
-	failN   int   // fail the next failN writes
-	failErr error
-	onWrite func(TxFrame)
-	after   func(TxFrame)
-	shards  []recShard
-	rx      chan []byte
-	closed  chan struct{}
-	once    sync.Once
+	mu        sync.Mutex
+	frames    []TxFrame
+	seq       int
+	failDelay time.Duration
+	failN     int // fail the next failN writes
+	failErr   error
+	onWrite   func(TxFrame)
+	after     func(TxFrame)
+	shards    []recShard
+	rx        chan []byte
+	closed    chan struct{}
+	once      sync.Once
 }
 
 // NewRecorder returns a recorder with an rx queue of the given size.
@@ -51,7 +52,15 @@ func NewRecorder(rxQueue int) *Recorder {
 func (r *Recorder) OnWrite(f func(TxFrame)) { r.mu.Lock(); r.onWrite = f; r.mu.Unlock() }
 
 // FailNext makes the next n writes fail with err.
-func (r *Recorder) FailNext(n int, err error) { r.mu.Lock(); r.failN, r.failErr = n, err; r.mu.Unlock() }
+func (r *Recorder) FailNext(n int, err error) {
+	r.mu.Lock()
+	r.failN, r.failErr = n, err
+	r.mu.Unlock()
+}
+
+// FailSlowly makes the injected write failures take d before they are reported (a driver that times out, a full queue):
+// other goroutines run while the failing writer is still inside its write.
+func (r *Recorder) FailSlowly(d time.Duration) { r.mu.Lock(); r.failDelay = d; r.mu.Unlock() }
 
 var ErrInjected = errors.New("injected write error")
 
@@ -117,6 +126,14 @@ func (r *Recorder) WriteTo(b []byte, addr net.Addr) (int, error) {
 	n, f, after, err := r.writeTo(b, addr)
 	if err == nil && after != nil {
 		after(f)
+	}
+	if err != nil {
+		r.mu.Lock()
+		d := r.failDelay
+		r.mu.Unlock()
+		if d > 0 {
+			time.Sleep(d)
+		}
 	}
 	return n, err
 }
@@ -277,9 +294,9 @@ func Quiet() {
 // write means that a line was written twice or used after Write/ToString, i.e. two users now share one pooled buffer.
 type LogMon struct {
 	counting atomic.Bool
-	mu    sync.Mutex
-	Lines int64
-	bad   []string
+	mu       sync.Mutex
+	Lines    int64
+	bad      []string
 }
 
 // Log is the process wide monitor installed by Quiet.
